@@ -20,6 +20,12 @@ pub enum Op {
     /// remove the node in the slot (and with it all its edges), insert a new
     /// node into the slot (usually re-using the id)
     RenewNode(u8),
+    /// insert a new node into a new slot (it takes the most recently freed id,
+    /// which may be the id of a removed EDGE)
+    AddNode,
+    /// remove the node in the slot (and with it all its edges); the slot stays
+    /// empty, its id is free for the next inserted node OR edge
+    DropNode(u8),
 }
 
 impl Op {
@@ -28,6 +34,8 @@ impl Op {
             Op::Edge(a, b) => format!("E{a}-{b}"),
             Op::RemoveEdge(j) => format!("XE{j}"),
             Op::RenewNode(a) => format!("XN{a}"),
+            Op::AddNode => "N".to_string(),
+            Op::DropNode(a) => format!("DN{a}"),
         }
     }
     pub fn parse(s: &str) -> Option<Op> {
@@ -36,6 +44,12 @@ impl Op {
         }
         if let Some(r) = s.strip_prefix("XN") {
             return r.parse().ok().map(Op::RenewNode);
+        }
+        if let Some(r) = s.strip_prefix("DN") {
+            return r.parse().ok().map(Op::DropNode);
+        }
+        if s == "N" {
+            return Some(Op::AddNode);
         }
         let r = s.strip_prefix('E')?;
         let (a, b) = r.split_once('-')?;
@@ -125,7 +139,7 @@ pub struct RefEdge {
 
 #[derive(Clone, Debug, Default)]
 pub struct RefGraph {
-    /// slot -> node id
+    /// slot -> node id (0 = the slot is empty: node dropped)
     pub slots: Vec<i64>,
     /// live edges, oldest first (insertion order = "connection" order)
     pub edges: Vec<RefEdge>,
@@ -153,7 +167,7 @@ impl RefGraph {
     }
     /// every element id: nodes by slot, then edges oldest first
     pub fn elements(&self) -> Vec<i64> {
-        let mut v = self.slots.clone();
+        let mut v: Vec<i64> = self.slots.iter().copied().filter(|s| *s != 0).collect();
         v.extend(self.edges.iter().map(|e| e.id));
         v
     }
@@ -173,6 +187,7 @@ impl RefGraph {
     /// distinct graphs. Adjacency order is part of the structure.
     pub fn canonical(&self) -> Vec<u8> {
         let mut out = vec![self.slots.len() as u8];
+        out.extend(self.slots.iter().map(|s| (*s != 0) as u8));
         let slot_of = |id: i64| self.slots.iter().position(|s| *s == id).unwrap_or(255) as u8;
         for e in &self.edges {
             out.push(slot_of(e.from));
@@ -183,7 +198,7 @@ impl RefGraph {
     /// readable listing for replay files
     pub fn listing(&self) -> Value {
         json!({
-            "nodes": self.slots,
+            "nodes": self.slots.iter().filter(|s| **s != 0).collect::<Vec<_>>(),
             "edges_oldest_first": self.edges.iter().map(|e| json!({"id": e.id, "from": e.from, "to": e.to})).collect::<Vec<_>>(),
             "props": self.props.iter().map(|(id, kv)| json!({"id": id, "values": kv.iter().map(|(k, v)| json!([k.to_string(), format!("{v:?}")])).collect::<Vec<_>>()})).collect::<Vec<_>>(),
             "aliases": self.aliases,
@@ -216,6 +231,9 @@ fn build_inner<S: StorageData>(db: &mut DbImpl<S>, spec: &GraphSpec) -> Result<R
         match *op {
             Op::Edge(a, b) => {
                 let (from, to) = (g.slots[a as usize], g.slots[b as usize]);
+                if from == 0 || to == 0 {
+                    return Err("invalid history: edge at an empty slot".into());
+                }
                 let id = one_id(db.exec_mut(QueryBuilder::insert().edges().from(from).to(to).query()), "insert edge")?;
                 if id >= 0 || g.edge(id).is_some() {
                     return Err(format!("insert edge returned id {id}"));
@@ -231,6 +249,19 @@ fn build_inner<S: StorageData>(db: &mut DbImpl<S>, spec: &GraphSpec) -> Result<R
                 let id = g.edges[j].id;
                 db.exec_mut(QueryBuilder::remove().ids(id).query()).map_err(|e| format!("remove edge: {}", e.description))?;
                 g.edges.remove(j);
+            }
+            Op::AddNode => {
+                let id = one_id(db.exec_mut(QueryBuilder::insert().nodes().count(1).query()), "insert node")?;
+                if id <= 0 || g.slots.contains(&id) {
+                    return Err(format!("insert node returned id {id} (live: {:?})", g.slots));
+                }
+                g.slots.push(id);
+            }
+            Op::DropNode(s) => {
+                let old = *g.slots.get(s as usize).filter(|x| **x != 0).ok_or("invalid history: DropNode of an empty slot")?;
+                db.exec_mut(QueryBuilder::remove().ids(old).query()).map_err(|e| format!("remove node: {}", e.description))?;
+                g.edges.retain(|e| e.from != old && e.to != old);
+                g.slots[s as usize] = 0;
             }
             Op::RenewNode(s) => {
                 let old = g.slots[s as usize];
@@ -438,40 +469,107 @@ pub fn alphabet(nodes: u8, max_live: u8, with_removals: bool) -> Vec<Op> {
 /// a removal that leaves a graph already produced by a shorter history are
 /// still enumerated (ids and adjacency order may differ).
 pub fn for_each_history(alpha: &[Op], prefix: &[Op], depth: usize, f: &mut dyn FnMut(&[Op])) {
-    fn live_edges(ops: &[Op]) -> Option<Vec<(u8, u8)>> {
+    // alphabets without AddNode/DropNode never address a missing slot
+    for_each_history_in(alpha, 63, 63, prefix, depth, f)
+}
+
+/// The same over alphabets that add and drop nodes: `nodes` slots exist at
+/// the start, at most `max_slots` ever; an edge needs two occupied slots,
+/// DropNode/RenewNode an occupied slot, AddNode a slot number below `max_slots`.
+pub fn for_each_history_in(alpha: &[Op], nodes: u8, max_slots: u8, prefix: &[Op], depth: usize, f: &mut dyn FnMut(&[Op])) {
+    fn valid(ops: &[Op], nodes: u8, max_slots: u8) -> bool {
         let mut live: Vec<(u8, u8)> = vec![];
+        let mut count = nodes;
+        let mut occupied: u64 = if nodes >= 63 { u64::MAX } else { (1u64 << nodes) - 1 };
+        let has = |occupied: u64, s: u8| s < 64 && occupied >> s & 1 == 1;
         for op in ops {
             match *op {
-                Op::Edge(a, b) => live.push((a, b)),
+                Op::Edge(a, b) => {
+                    if !has(occupied, a) || !has(occupied, b) {
+                        return false;
+                    }
+                    live.push((a, b))
+                }
                 Op::RemoveEdge(j) => {
                     if (j as usize) >= live.len() {
-                        return None;
+                        return false;
                     }
                     live.remove(j as usize);
                 }
-                Op::RenewNode(s) => live.retain(|(a, b)| *a != s && *b != s),
+                Op::RenewNode(s) => {
+                    if !has(occupied, s) {
+                        return false;
+                    }
+                    live.retain(|(a, b)| *a != s && *b != s)
+                }
+                Op::AddNode => {
+                    if count >= max_slots {
+                        return false;
+                    }
+                    occupied |= 1u64 << count;
+                    count += 1;
+                }
+                Op::DropNode(s) => {
+                    if !has(occupied, s) {
+                        return false;
+                    }
+                    occupied &= !(1u64 << s);
+                    live.retain(|(a, b)| *a != s && *b != s)
+                }
             }
         }
-        Some(live)
+        true
     }
-    fn rec(alpha: &[Op], cur: &mut Vec<Op>, depth: usize, f: &mut dyn FnMut(&[Op])) {
+    fn rec(alpha: &[Op], nodes: u8, max_slots: u8, cur: &mut Vec<Op>, depth: usize, f: &mut dyn FnMut(&[Op])) {
         f(cur);
         if cur.len() >= depth {
             return;
         }
         for op in alpha {
             cur.push(*op);
-            if live_edges(cur).is_some() {
-                rec(alpha, cur, depth, f);
+            if valid(cur, nodes, max_slots) {
+                rec(alpha, nodes, max_slots, cur, depth, f);
             }
             cur.pop();
         }
     }
-    if live_edges(prefix).is_none() || prefix.len() > depth {
+    if !valid(prefix, nodes, max_slots) || prefix.len() > depth {
         return;
     }
     let mut cur = prefix.to_vec();
-    rec(alpha, &mut cur, depth, f);
+    rec(alpha, nodes, max_slots, &mut cur, depth, f);
+}
+
+/// Alphabet of the id-reuse histories on `nodes` initial slots and one more
+/// that AddNode can create: all edges over the nodes+1 slots, removal of the
+/// j-th oldest edge, DropNode of every slot, AddNode, RenewNode of every slot.
+pub fn reuse_alphabet(nodes: u8, max_live: u8) -> Vec<Op> {
+    let slots = nodes + 1;
+    let mut a = vec![Op::AddNode];
+    for x in 0..slots {
+        a.push(Op::DropNode(x));
+    }
+    for j in 0..max_live {
+        a.push(Op::RemoveEdge(j));
+    }
+    for x in 0..slots {
+        for y in 0..slots {
+            a.push(Op::Edge(x, y));
+        }
+    }
+    for x in 0..slots {
+        a.push(Op::RenewNode(x));
+    }
+    a
+}
+
+pub fn work_items_in(alpha: &[Op], nodes: u8, max_slots: u8, depth: usize, split: usize) -> Vec<(Vec<Op>, bool)> {
+    let split = split.min(depth);
+    let mut items = vec![];
+    for_each_history_in(alpha, nodes, max_slots, &[], split, &mut |h| {
+        items.push((h.to_vec(), h.len() == split));
+    });
+    items
 }
 
 /// Work items for `par_for`: every valid history of length exactly
